@@ -1,2 +1,264 @@
+/-
+  Table-level lookup lemmas for C01: `breakTimeCore` reports the table segment of `t`
+  (`segIndex`), for any hint; `localTimeTT` / `localTimeTr` are exact.
+-/
 import Cctz.Model.Tz
 import Cctz.Spec.TableSem
+import Cctz.Proofs.CivilArith
+
+namespace Cctz.Tl
+open Cctz Cctz.Tz Cctz.Spec
+
+/-! ## total accessors -/
+
+theorem getType_val (z : Zone) (i : Nat) : (getType z i).val = typ z i := by
+  unfold getType typ
+  rw [Array.getD_eq_getD_getElem?]
+  cases h : z.types[i]? <;> rfl
+
+theorem getTrans_val (z : Zone) (i : Nat) : (getTrans z i).val = trn z i := by
+  unfold getTrans trn
+  rw [Array.getD_eq_getD_getElem?]
+  cases h : z.transitions[i]? <;> rfl
+
+theorem tm_eq (z : Zone) (i : Nat) : (z.transitions[i]?.map (·.unixTime)).getD 0 = timeOf z i := by
+  unfold timeOf trn
+  rw [Array.getD_eq_getD_getElem?]
+  cases h : z.transitions[i]? <;> rfl
+
+/-! ## counting a prefix -/
+
+theorem count_prefix (p : Nat → Bool) (n k : Nat) (hk : k ≤ n) (h1 : ∀ i, i < k → p i = true)
+    (h2 : ∀ i, k ≤ i → i < n → p i = false) : ((List.range n).filter p).length = k := by
+  induction n generalizing k with
+  | zero => simp; omega
+  | succ n ih =>
+    rw [List.range_succ, List.filter_append, List.length_append]
+    by_cases hkn : k ≤ n
+    · rw [ih k hkn h1 (fun i a b => h2 i a (by omega))]
+      have := h2 n hkn (by omega)
+      simp [this]
+    · have hk' : k = n + 1 := by omega
+      subst hk'
+      rw [ih n (Nat.le_refl n) (fun i hi => h1 i (by omega)) (fun i a b => by omega)]
+      simp [h1 n (by omega)]
+
+/-- `segIndex z t = k` as soon as the first `k` entries are at or before `t` and the others after -/
+theorem segIndex_of_split (z : Zone) (t : Int) (k : Nat) (hk : k ≤ z.transitions.size)
+    (h1 : ∀ i, i < k → timeOf z i ≤ t)
+    (h2 : ∀ i, k ≤ i → i < z.transitions.size → t < timeOf z i) : segIndex z t = k := by
+  unfold segIndex
+  apply count_prefix _ _ _ hk
+  · intro i hi; simpa using h1 i hi
+  · intro i hi hi2; have := h2 i hi hi2; simp; omega
+
+/-- in a table sorted by time it is enough to look at the two neighbours -/
+theorem segIndex_of_neighbours (z : Zone) (wf : TableWF z) (t : Int) (k : Nat)
+    (hk : k ≤ z.transitions.size)
+    (h1 : k = 0 ∨ timeOf z (k - 1) ≤ t) (h2 : k = z.transitions.size ∨ t < timeOf z k) :
+    segIndex z t = k := by
+  apply segIndex_of_split z t k hk
+  · intro i hi
+    rcases h1 with h1 | h1
+    · omega
+    · by_cases he : i = k - 1
+      · subst he; exact h1
+      · have := wf.timeSorted i (k - 1) (by omega) (by omega)
+        unfold timeOf at *; omega
+  · intro i hi hi2
+    rcases h2 with h2 | h2
+    · omega
+    · by_cases he : i = k
+      · subst he; exact h2
+      · have := wf.timeSorted k i (by omega) hi2
+        unfold timeOf at *; omega
+
+/-! ## `std::upper_bound` by bisection -/
+
+theorem ub_go (z : Zone) (t : Int)
+    (srt : ∀ i j, i < j → j < z.transitions.size → timeOf z i < timeOf z j) :
+    ∀ (fuel lo hi : Nat), lo ≤ hi → hi ≤ z.transitions.size → hi - lo < fuel →
+      (∀ i, i < lo → timeOf z i ≤ t) → (∀ i, hi ≤ i → i < z.transitions.size → t < timeOf z i) →
+      lo ≤ upperBoundTime.go z.transitions t lo hi fuel ∧
+      upperBoundTime.go z.transitions t lo hi fuel ≤ hi ∧
+      (∀ i, i < upperBoundTime.go z.transitions t lo hi fuel → timeOf z i ≤ t) ∧
+      (∀ i, upperBoundTime.go z.transitions t lo hi fuel ≤ i → i < z.transitions.size →
+        t < timeOf z i) := by
+  intro fuel
+  induction fuel with
+  | zero => intro lo hi _ _ h; omega
+  | succ fuel ih =>
+    intro lo hi hlh hhs hf h1 h2
+    unfold upperBoundTime.go
+    by_cases hlt : lo < hi
+    · simp only [hlt, if_true, tm_eq]
+      by_cases hc : t < timeOf z (lo + (hi - lo) / 2)
+      · simp only [hc, if_true]
+        have := ih lo (lo + (hi - lo) / 2) (by omega) (by omega) (by omega) h1 (by
+          intro i hi1 hi2
+          by_cases he : i = lo + (hi - lo) / 2
+          · subst he; exact hc
+          · have := srt (lo + (hi - lo) / 2) i (by omega) hi2; omega)
+        refine ⟨this.1, by omega, this.2.2.1, this.2.2.2⟩
+      · simp only [hc, if_false]
+        have := ih (lo + (hi - lo) / 2 + 1) hi (by omega) (by omega) (by omega) (by
+          intro i hi1
+          by_cases he : i = lo + (hi - lo) / 2
+          · subst he; omega
+          · have := srt i (lo + (hi - lo) / 2) (by omega) (by omega); omega) h2
+        refine ⟨by omega, this.2.1, this.2.2.1, this.2.2.2⟩
+    · simp only [hlt, if_false]
+      have : lo = hi := by omega
+      subst this
+      exact ⟨Nat.le_refl _, Nat.le_refl _, h1, h2⟩
+
+/-- `upperBoundTime` is the number of entries at or before `t` -/
+theorem upperBoundTime_eq (z : Zone) (wf : TableWF z) (t : Int) :
+    upperBoundTime z.transitions t = segIndex z t := by
+  have h := ub_go z t wf.timeSorted (z.transitions.size + 1) 0 z.transitions.size (Nat.zero_le _)
+    (Nat.le_refl _) (by omega) (fun i hi => by omega) (fun i a b => by omega)
+  exact (segIndex_of_split z t _ h.2.1 h.2.2.1 h.2.2.2).symm
+
+/-! ## the two `LocalTime` overloads -/
+
+/-- the answer `a` is what type `k` shows at instant `t` -/
+def ShowsType (z : Zone) (t : Int) (k : Nat) (a : AbsLookup) : Prop :=
+  Valid a.cs ∧ secNum a.cs = t + (typ z k).utcOffset ∧ a.offset = (typ z k).utcOffset ∧
+  a.isDst = (typ z k).isDst ∧ a.abbr = abbrAt z.abbreviations (typ z k).abbrIndex
+
+theorem valid_epoch : Valid epoch := by decide
+theorem secNum_epoch : secNum epoch = 0 := by decide
+
+theorem localTimeTT_spec (abbrs : Bytes) (t : Int) (tt : TransitionType) :
+    let a := (localTimeTT abbrs t tt).val
+    Valid a.cs ∧ secNum a.cs = t + tt.utcOffset ∧ a.offset = tt.utcOffset ∧ a.isDst = tt.isDst ∧
+    a.abbr = abbrAt abbrs tt.abbrIndex := by
+  obtain ⟨v1, _, u1⟩ := civilAdd_spec .second epoch t valid_epoch trivial
+  obtain ⟨v2, _, u2⟩ := civilAdd_spec .second _ tt.utcOffset v1 trivial
+  refine ⟨v2, ?_, rfl, rfl, rfl⟩
+  show secNum (Civil.civilAdd .second (Civil.civilAdd .second epoch t).val tt.utcOffset).val = _
+  have e1 : secNum (Civil.civilAdd .second epoch t).val = secNum epoch + t := u1
+  have e2 : secNum (Civil.civilAdd .second (Civil.civilAdd .second epoch t).val tt.utcOffset).val =
+    secNum (Civil.civilAdd .second epoch t).val + tt.utcOffset := u2
+  rw [e2, e1, secNum_epoch]; omega
+
+theorem localTimeTT_shows (z : Zone) (t : Int) (k : Nat) :
+    ShowsType z t k (localTimeTT z.abbreviations t (typ z k)).val :=
+  localTimeTT_spec z.abbreviations t (typ z k)
+
+theorem localTimeTr_val (z : Zone) (t : Int) (tr : Transition) :
+    (localTimeTr z t tr).val =
+      ⟨(Civil.civilAdd .second tr.civilSec (t - tr.unixTime)).val, (typ z tr.typeIndex).utcOffset,
+       (typ z tr.typeIndex).isDst, abbrAt z.abbreviations (typ z tr.typeIndex).abbrIndex⟩ := by
+  rw [← getType_val]; rfl
+
+theorem localTimeTr_spec (z : Zone) (t : Int) (tr : Transition) (v : Valid tr.civilSec) :
+    let a := (localTimeTr z t tr).val
+    Valid a.cs ∧ secNum a.cs = secNum tr.civilSec + (t - tr.unixTime) ∧
+    a.offset = (typ z tr.typeIndex).utcOffset ∧ a.isDst = (typ z tr.typeIndex).isDst ∧
+    a.abbr = abbrAt z.abbreviations (typ z tr.typeIndex).abbrIndex := by
+  obtain ⟨v1, _, u1⟩ := civilAdd_spec .second tr.civilSec (t - tr.unixTime) v trivial
+  rw [localTimeTr_val]
+  exact ⟨v1, u1, rfl, rfl, rfl⟩
+
+theorem localTimeTr_shows (z : Zone) (cc : CivilCols z) (t : Int) (i : Nat)
+    (hi : i < z.transitions.size) :
+    ShowsType z t (trn z i).typeIndex (localTimeTr z t (trn z i)).val := by
+  obtain ⟨v, s⟩ := cc.civ i hi
+  obtain ⟨a, b, c, d, e⟩ := localTimeTr_spec z t (trn z i) v
+  refine ⟨a, ?_, c, d, e⟩
+  rw [b, s]; unfold timeOf offOf; omega
+
+/-! ## `BreakTime` below the shift -/
+
+theorem breakTimeCore_val (z : Zone) (h : Nat) (t : Int) :
+    (breakTimeCore z h t).val =
+      if t < timeOf z 0 then ((localTimeTT z.abbreviations t (typ z z.defaultType)).val, h)
+      else if t ≥ timeOf z (z.transitions.size - 1) then
+        ((localTimeTr z t (trn z (z.transitions.size - 1))).val, h)
+      else if (0 < h ∧ h < z.transitions.size) ∧ timeOf z (h - 1) ≤ t ∧ t < timeOf z h then
+        ((localTimeTr z t (trn z (h - 1))).val, h)
+      else ((localTimeTr z t (trn z (upperBoundTime z.transitions t - 1))).val,
+             upperBoundTime z.transitions t) := by
+  unfold breakTimeCore
+  simp only [Ck.bindv, getTrans_val, getType_val, ite_val, Ck.pure_val, timeOf]
+  by_cases c1 : t < (trn z 0).unixTime
+  · simp only [c1, if_true]
+  · simp only [c1, if_false]
+    by_cases c2 : t ≥ (trn z (z.transitions.size - 1)).unixTime
+    · simp only [c2, if_true]
+    · simp only [c2, if_false]
+      by_cases h1 : 0 < h ∧ h < z.transitions.size
+      · simp only [h1, and_self, if_true, true_and]
+        by_cases h2 : (trn z (h - 1)).unixTime ≤ t
+        · simp only [h2, if_true, true_and]
+        · simp only [h2, if_false, false_and]
+      · simp only [h1, if_false, false_and]
+
+/-- the answer is the one the table gives at `t` -/
+def LookupAt (z : Zone) (t : Int) (a : AbsLookup) : Prop :=
+  Valid a.cs ∧ secNum a.cs = t + offAt z t ∧ a.offset = offAt z t ∧
+  a.isDst = (typ z (typeAt z t)).isDst ∧
+  a.abbr = abbrAt z.abbreviations (typ z (typeAt z t)).abbrIndex
+
+theorem lookupAt_of_seg (z : Zone) (cc : CivilCols z) (t : Int) (k : Nat)
+    (hs : segIndex z t = k) (h0 : 0 < k) (hk : k ≤ z.transitions.size) :
+    LookupAt z t (localTimeTr z t (trn z (k - 1))).val := by
+  have := localTimeTr_shows z cc t (k - 1) (by omega)
+  have e : typeAt z t = (trn z (k - 1)).typeIndex := by
+    unfold typeAt; rw [hs, if_neg (by omega)]
+  unfold LookupAt offAt; rw [e]; exact this
+
+/-- `breakTimeCore` finds the segment of `t`, whatever the hint -/
+theorem breakTimeCore_spec (z : Zone) (wf : TableWF z) (cc : CivilCols z) (h : Nat) (t : Int) :
+    LookupAt z t (breakTimeCore z h t).val.1 := by
+  have hn := wf.nonempty
+  rw [breakTimeCore_val]
+  by_cases c1 : t < timeOf z 0
+  · rw [if_pos c1]
+    have hs : segIndex z t = 0 :=
+      segIndex_of_neighbours z wf t 0 (Nat.zero_le _) (Or.inl rfl) (Or.inr c1)
+    have e : typeAt z t = z.defaultType := by unfold typeAt; rw [hs, if_pos rfl]
+    have := localTimeTT_shows z t z.defaultType
+    unfold LookupAt offAt; rw [e]; exact this
+  · rw [if_neg c1]
+    by_cases c2 : t ≥ timeOf z (z.transitions.size - 1)
+    · rw [if_pos c2]
+      exact lookupAt_of_seg z cc t _ (segIndex_of_neighbours z wf t _ (Nat.le_refl _) (Or.inr c2)
+        (Or.inl rfl)) hn (Nat.le_refl _)
+    · rw [if_neg c2]
+      by_cases c3 : (0 < h ∧ h < z.transitions.size) ∧ timeOf z (h - 1) ≤ t ∧ t < timeOf z h
+      · rw [if_pos c3]
+        exact lookupAt_of_seg z cc t h (segIndex_of_neighbours z wf t h (by omega) (Or.inr c3.2.1)
+          (Or.inr c3.2.2)) c3.1.1 (by omega)
+      · rw [if_neg c3]
+        have hu := upperBoundTime_eq z wf t
+        have hb := ub_go z t wf.timeSorted (z.transitions.size + 1) 0 z.transitions.size
+          (Nat.zero_le _) (Nat.le_refl _) (by omega) (fun i hi => by omega) (fun i a b => by omega)
+        have h0 : 0 < upperBoundTime z.transitions t := by
+          rcases Nat.eq_zero_or_pos (upperBoundTime z.transitions t) with h0 | h0
+          · have := hb.2.2.2 0 (by show upperBoundTime z.transitions t ≤ 0; omega) hn
+            omega
+          · exact h0
+        exact lookupAt_of_seg z cc t _ hu.symm h0 hb.2.1
+
+/-- the hint never changes the answer -/
+theorem breakTimeCore_hint_irrelevant (z : Zone) (wf : TableWF z) (h h' : Nat) (t : Int) :
+    (breakTimeCore z h t).val.1 = (breakTimeCore z h' t).val.1 := by
+  have key : ∀ h, (breakTimeCore z h t).val.1 =
+      if t < timeOf z 0 then (localTimeTT z.abbreviations t (typ z z.defaultType)).val
+      else (localTimeTr z t (trn z (segIndex z t - 1))).val := by
+    intro h
+    rw [breakTimeCore_val]
+    by_cases c1 : t < timeOf z 0
+    · rw [if_pos c1, if_pos c1]
+    · rw [if_neg c1, if_neg c1]
+      by_cases c2 : t ≥ timeOf z (z.transitions.size - 1)
+      · rw [if_pos c2, segIndex_of_neighbours z wf t _ (Nat.le_refl _) (Or.inr c2) (Or.inl rfl)]
+      · rw [if_neg c2]
+        by_cases c3 : (0 < h ∧ h < z.transitions.size) ∧ timeOf z (h - 1) ≤ t ∧ t < timeOf z h
+        · rw [if_pos c3, segIndex_of_neighbours z wf t h (by omega) (Or.inr c3.2.1) (Or.inr c3.2.2)]
+        · rw [if_neg c3, upperBoundTime_eq z wf t]
+  rw [key h, key h']
+
+end Cctz.Tl
